@@ -287,7 +287,20 @@ func VerifC16Options() {
 	}
 	req, _ := msg.NewRequest(msg.Spec{Wire: []byte("x"), ContentType: ct})
 	res, _ := msg.NewResponse(msg.Spec{Wire: []byte("y"), ContentType: ct}, req)
-	vf.Assert(l.postDataLogging(req) == want, "post-data-capture-follows-option")
-	vf.Assert(l.bodyLogging(res) == want, "body-capture-follows-option")
+	// observed through the log itself: what the recorded entry contains
+	vf.Assert(l.RecordRequest("id", req) == nil && l.RecordResponse("id", res) == nil, "exchange-recorded")
+	es := l.Export().Log.Entries
+	vf.Assert(len(es) == 1 && es[0].Request != nil && es[0].Response != nil, "exchange-recorded")
+	if len(es) != 1 || es[0].Request == nil || es[0].Response == nil {
+		return
+	}
+	gotPost := es[0].Request.PostData != nil && es[0].Request.PostData.Text == "x"
+	gotBody := es[0].Response.Content != nil && string(es[0].Response.Content.Text) == "y"
+	vf.Assert(gotPost == want, "post-data-capture-follows-option")
+	vf.Assert(gotBody == want, "body-capture-follows-option")
+	if !want {
+		vf.Assert(es[0].Request.PostData == nil || es[0].Request.PostData.Text == "", "capture-off-no-content")
+		vf.Assert(es[0].Response.Content == nil || len(es[0].Response.Content.Text) == 0, "capture-off-no-content")
+	}
 	vf.Reach("done")
 }
